@@ -54,6 +54,10 @@ theorem dropWhile_nil_of {α} (p : α → Bool) : ∀ l : List α, l.dropWhile p
       · exact ih h x hx
     · simp [List.dropWhile, ha] at h
 
+/-- the words exppp writes for the constants are the scanner's keywords for them -/
+@[simp] theorem constTok_pi : constTok ExpPrec.piText "TOK_PI" = .kw "PI" := by decide
+@[simp] theorem constTok_e : constTok ExpPrec.eText "TOK_E" = .kw "CONST_E" := by decide
+
 /-- **`real2exp` keeps the decimal point**: whatever trailing zeros it removes, the spelling of a real that had a point
 still has one, so it is never an integer literal -/
 theorem real2exp_keeps_point (g : List Char) (h : '.' ∈ g) : '.' ∈ real2exp g := by
@@ -118,7 +122,7 @@ theorem parseUnary_lit (l : Lit) (hl : LitWF l) (n : Nat) (r : List Tok) (h : No
     have hg : (real2exp g).all Char.isDigit = false := real2exp_not_all_digits g hl
     simp only [litToks, hg]
     simp [parseUnary, parsePrimary, parsePostfix_stop _ _ _ h]
-  | _ => simp_all [litToks, parseUnary, parsePrimary, parsePostfix_stop, kwLit, LitWF, unescQ_escQ]
+  | _ => simp_all [litToks, parseUnary, parsePrimary, parsePostfix_stop, kwLit, LitWF, unescQ_escQ, constTok_pi, constTok_e]
 
 theorem parseUnary_ident (s : String) (n : Nat) (r : List Tok) (h : NoQ r) :
     parseUnary (n + 2) (.id s :: r) = some (.ident s, r) := by
@@ -274,7 +278,7 @@ theorem parsePrimary_lit (l : Lit) (hl : LitWF l) (n : Nat) (r : List Tok) :
     have hg : (real2exp g).all Char.isDigit = false := real2exp_not_all_digits g hl
     simp only [litToks, hg]
     simp [parsePrimary]
-  | _ => simp_all [litToks, parsePrimary, kwLit, LitWF, unescQ_escQ]
+  | _ => simp_all [litToks, parsePrimary, kwLit, LitWF, unescQ_escQ, constTok_pi, constTok_e]
 
 theorem parsePrimary_ident (s : String) (n : Nat) (r : List Tok) (h : NoLp r) :
     parsePrimary (n + 1) (.id s :: r) = some (.ident s, r) := by
@@ -567,7 +571,7 @@ theorem headOK_lit (l : Lit) : HeadOK (.lit l) := by
   rw [T_lit]
   cases l with
   | real g => simp only [litToks]; split <;> simp [HeadP]
-  | _ => simp [litToks, HeadP]
+  | _ => simp [litToks, HeadP, constTok_pi, constTok_e]
 
 theorem headOK_paren (e : Expr) (h : ∀ p q, PShape e p q → ∃ ts, T e p q = .lp :: ts) : HeadOK e := by
   intro p q hp r
@@ -761,7 +765,7 @@ theorem T_start : ∀ e, wfE e → ∀ p q, ∃ t ts, T e p q = t :: ts ∧ Star
     rw [T_lit]
     cases l with
     | real g => simp only [litToks]; split <;> exact ⟨_, _, rfl, by simp [Starter]⟩
-    | _ => exact ⟨_, _, rfl, by simp [Starter]⟩
+    | _ => exact ⟨_, _, rfl, by simp [Starter, constTok_pi, constTok_e]⟩
   | ident s => intro _ p q; exact ⟨_, _, T_ident s p q, by simp [Starter]⟩
   | bin o a b iha _ =>
     intro h p q
